@@ -71,9 +71,7 @@ func init() {
 		ID: "T01", NeedCG: true, Quick: cfgAMD, Thorough: cfgAll,
 		Explanation: "scratch",
 		Run: func(w *World, r *Report, tier string) {
-			guard(r, "GLOBALS", func() { ruleGLOBALS(w, r, nil) })
-			guard(r, "GLOB", func() { ruleGLOB(w, r) })
-			guard(r, "NILF", func() { ruleNILF(w, r) })
+			guard(r, "PAIR", func() { rulePAIRpar2(w, r); rulePAIRpar1(w, r); rulePAIRERRTYPE(w, r) })
 		},
 	})
 }
